@@ -9,6 +9,8 @@ mod pma;
 mod rng;
 mod stream;
 mod stream_cli;
+mod threads;
+mod threads_cli;
 
 use batch::harness_error;
 
@@ -29,11 +31,25 @@ fn main() {
     }
     // Panics of the code under test are caught per run and turned into violations; keep the
     // default hook quiet so that logs stay readable (and never influence the schedule).
-    if !batch::has(&args, "--loud") {
-        std::panic::set_hook(Box::new(|_| {}));
-    }
+    let loud = batch::has(&args, "--loud");
+    let default_hook = std::panic::take_hook();
+    std::panic::set_hook(Box::new(move |info| {
+        let msg = if let Some(s) = info.payload().downcast_ref::<&str>() {
+            s.to_string()
+        } else if let Some(s) = info.payload().downcast_ref::<String>() {
+            s.clone()
+        } else {
+            String::new()
+        };
+        threads::on_panic(&msg);
+        if loud {
+            default_hook(info);
+        }
+    }));
     let code = match args[1].as_str() {
         "stream" => stream_cli::cli(&args[2..]),
+        "threads" => threads_cli::cli_threads(&args[2..]),
+        "lockstep" => threads_cli::cli_lockstep(&args[2..]),
         "replay" => {
             let path = args.get(2).unwrap_or_else(|| harness_error("replay: missing path"));
             let txt = std::fs::read_to_string(path)
@@ -43,6 +59,7 @@ fn main() {
             let prop = doc["property"].as_str().unwrap_or("?").to_string();
             let code = match doc["engine"].as_str() {
                 Some("stream") => stream_cli::replay(&doc),
+                Some("threads") | Some("lockstep") => threads_cli::replay(&doc),
                 other => harness_error(&format!("replay: unknown engine {other:?}")),
             };
             if code == 1 {
